@@ -106,14 +106,21 @@ pub(crate) fn unbond(
             BOND.save(deps.storage, (&info.sender, &denom), &unbond)?;
         }
 
-        // record the unbonding
-        UNBOND.save(
+        // record the unbonding. Unbondings of the same denom made by the same address within one
+        // block share the same key, so accumulate instead of overwriting the previous record.
+        UNBOND.update::<_, cosmwasm_std::StdError>(
             deps.storage,
             (&info.sender, &denom, timestamp.nanos()),
-            &Bond {
-                asset: asset.clone(),
-                weight: Uint128::zero(),
-                timestamp,
+            |existing| match existing {
+                Some(mut unbonding) => {
+                    unbonding.asset.amount = unbonding.asset.amount.checked_add(asset.amount)?;
+                    Ok(unbonding)
+                }
+                None => Ok(Bond {
+                    asset: asset.clone(),
+                    weight: Uint128::zero(),
+                    timestamp,
+                }),
             },
         )?;
 
